@@ -675,6 +675,38 @@ def mk_atomic(rnd, tier):
     return out
 
 
+def mk_shutdown(rnd, sched):
+    """the final dump of OnShutdown next to a periodic dump (directed two-thread schedules, see harness/ops_ps.cpp (iv))"""
+    n = rnd.randint(2, 4)
+    strs = ['x', 'note "q"', 'a\\b', 'ü€', 'line\nbreak', '', '$m$', '}}}']
+    head = 'ps_mnew n=%d' % n
+    for i in range(n):
+        sfx = str(i) if i else ''
+        head += ' vars%s=M(61:D%d,62:S%s) notes%s=%s ci%s=%s' % (sfx, i + 1, hx(rnd.choice(strs)), sfx, hx('n%d' % i), sfx, rnd.choice(['300', '60']))
+    t = T0
+    lines = ['now %d' % t, head]
+
+    def some_mods(k):
+        nonlocal t
+        for _ in range(k):
+            t += rnd.choice((1, 2, 7, 60))
+            o = rnd.randrange(n)
+            p = rnd.choice(['vars.a', 'vars.b', 'check_interval', 'vars.c'])
+            v = 'D' + rnd.choice(['5', '60', '0.5', '120']) if p == 'check_interval' else rnd.choice(['D7', 'S' + hx(rnd.choice(strs)), 'T', 'A(D1,D2)'])
+            lines.extend(['now %d' % t, 'ps_mod obj=%d path=%s val=%s' % (o, hx(p), v)])
+    some_mods(rnd.randint(0, 3))
+    t += 5
+    lines += ['now %d' % t, 'ps_crall n=%d state=%d' % (n, rnd.randint(0, 3))]
+    t += 1
+    lines += ['now %d' % t, 'ps_dumpstate']                       # the previous periodic dump, complete
+    some_mods(rnd.randint(1, 3))                                  # changes since
+    t += rnd.choice((10, 120, 299))
+    lines += ['now %d' % t, 'ps_crall n=%d state=%d' % (n, rnd.randint(0, 3))]
+    t += rnd.choice((1, 30))
+    lines += ['now %d' % t, 'ps_shutdown sched=%s val=S%s state=%d' % (sched, hx(rnd.choice(strs) + 'z'), rnd.randint(0, 3))]
+    return {'lines': lines, 'tags': {'family': 'shutdown-' + sched}}
+
+
 def generate(seed, tier):
     rnd = random.Random(seed)
     k = {'quick': 1, 'thorough': 10, 'search': 4}.get(tier, 1)
@@ -692,6 +724,8 @@ def generate(seed, tier):
     for i in range(160 * k): cases.append(mk_text(rnd))
     for i in range(150 * k): cases.append(mk_repeat(rnd))
     for i in range(40 * k): cases.append(mk_repeat_perkey(rnd))
+    for sched, cnt in (('parked', 10), ('late', 4), ('free', 4)):
+        for i in range(cnt * (1 if tier == 'quick' else 3)): cases.append(mk_shutdown(rnd, sched))
     if tier != 'search':
         cases += mk_big(rnd, tier)
         cases += mk_atomic(rnd, tier)
@@ -713,7 +747,7 @@ def canon(lines):
 
 
 def nontrivial(case, impl_lines):
-    return any(l.split()[0] in ('ps_mod', 'ps_dumprestore', 'ps_atomic', 'ps_kill', 'ps_dma', 'ps_restart', 'ps_fault') for l in case['lines'])
+    return any(l.split()[0] in ('ps_mod', 'ps_dumprestore', 'ps_atomic', 'ps_kill', 'ps_dma', 'ps_restart', 'ps_fault', 'ps_shutdown') for l in case['lines'])
 
 
 def _supplied(case, slot):
@@ -866,6 +900,14 @@ def _classify(case, detail, impl_lines):
         return 'modattr'
     if detail.startswith('modattr-version'):
         return 'modattr-version'
+    if detail.startswith('shutdown-dump-threw'):
+        # finding shutdown-dump-cleanup-race: only in the schedule in which a periodic dump begins (clean-up of <file>.tmp.*)
+        # while the shutdown dump has its temporary file open
+        return 'shutdown-dump-cleanup-race' if ' sched=late' in detail else 'shutdown-dump-threw'
+    if detail.startswith('shutdown-dump-stale'):
+        return 'shutdown-dump-stale'
+    if detail.startswith('shutdown') or detail.startswith('periodic-dump-failed'):
+        return 'shutdown-state-lost'
     if detail.startswith('restart'):
         return 'restart'
     if detail.startswith('atomic'):
@@ -886,7 +928,7 @@ def extra_stats(cases, impl):
           'state_roundtrip_identical': 0, 'traced_writes': 0, 'kills': 0, 'kill_left_old': 0, 'kill_left_new': 0, 'kill_left_absent': 0,
           'restarts': 0, 'population_reloads': 0, 'objects_reloaded_with_own_version': 0, 'faults': 0, 'fault_left_old': 0, 'fault_left_new': 0,
           'fault_left_absent': 0, 'largest_string_bytes': 0, 'records_over_1MiB': 0, 'objects_lost_to_depth_limit': 0,
-          'modattr_blocks_text_compared': 0, 'empty_keys_written': 0, 'reloads_failed_to_compile': 0, 'repeated_modifications_of_a_listed_path': 0}
+          'shutdown_dumps_next_to_a_periodic_dump': 0, 'shutdown_dumps_that_threw': 0, 'modattr_blocks_text_compared': 0, 'empty_keys_written': 0, 'reloads_failed_to_compile': 0, 'repeated_modifications_of_a_listed_path': 0}
     for c in cases:
         for l in c['lines']:
             for m in re.finditer(r'R(\d+)x', l):
@@ -918,6 +960,9 @@ def extra_stats(cases, impl):
                 if ' txt=' in l and not l.endswith('txt=-'): st['modattr_blocks_text_compared'] += 1
                 if ' obj=0 ' in l or ' obj=' not in l: st['restarts'] += 1
                 if ' obj=' in l and ' orig=M(' in l and ' orig=M() ' not in l: st['objects_reloaded_with_own_version'] += 1
+            elif l.startswith('shut '):
+                st['shutdown_dumps_next_to_a_periodic_dump'] += 1
+                st['shutdown_dumps_that_threw'] += ' threw=1' in l
             elif l.startswith('fault ok'):
                 st['faults'] += 1
                 for w in ('old', 'new', 'absent'):
